@@ -46,21 +46,54 @@ func vh14Corpus() []vhloopScn {
 			vhloopSend(vhloopFlush(3, 1)), vhloopSend(vhloopFlush(4, 2)), vhloopSend(vhloopFlush(5, 4)),
 			vhloopRel(ord[0], 0), vhloopSend(vhloopRead(9, -1)), vhloopRel(ord[1], 0))
 	}
-	// flushed request types: blocked in GetAttr, SetAttr, Walk, in the Close of a clunked fid, and in the Close of
-	// the File a Tattach onto an occupied fid replaces (a backend call made on behalf of that Tattach)
+	// flushed request types: every kind of request that reaches the backend, blocked inside the backend call made on
+	// its behalf (for Tattach onto an occupied fid and Tclunk that is the Close of the replaced / clunked File).
+	// fids: 0,1 regular open; 2,3 directories; 4 directory open; 5 regular not open; 6 symlink.  File k belongs to fid k.
+	// Write-class requests hold the (shared) root node's write lock while gated, so the traffic in between is lock free.
+	own := func(k string, fid, file int) vhloopFrame {
+		return vhloopFrame{K: k, Tag: 1, Fid: fid, Fid2: 3, NewFid: 9, Gate: vhloopFileBase + file, Files: []int{file}}
+	}
 	kinds := []struct {
 		name string
+		pre  []vhloopStep
 		f    vhloopFrame
 	}{
-		{"getattr", vhloopOnFile("getattr", 1, 1, 1, true)},
-		{"setattr", vhloopOnFile("setattr", 1, 1, 1, true)},
-		{"walk", vhloopOnFile("clone", 1, 1, 1, true)},
-		{"close-clunk", vhloopClunkF(1, 1, 1, true)},
-		{"close-replaced-fid", vhloopAttachOver(1, 1, 1, true)},
+		{"read", nil, vhloopReadF(1, 1, 11)},
+		{"write", nil, vhloopFrame{K: "write", Tag: 1, Fid: 1, Gate: 12}},
+		{"getattr", nil, vhloopWith(vhloopOnFile("getattr", 1, 1, 1, true), 1)},
+		{"setattr", nil, vhloopWith(vhloopOnFile("setattr", 1, 1, 1, true), 1)},
+		{"walk", nil, vhloopWith(vhloopOnFile("clone", 1, 1, 1, true), 1)},
+		{"close-clunk", nil, vhloopWith(vhloopClunkF(1, 1, 1, true), 1)},
+		{"close-replaced-fid", nil, vhloopWith(vhloopAttachOver(1, 1, 1, true), 1)},
+		{"fsync", nil, own("fsync", 1, 1)},
+		{"statfs", nil, own("statfs", 1, 1)},
+		{"lock", nil, own("lock", 1, 1)},
+		{"xattrwalk", nil, own("xattrwalk", 1, 1)},
+		{"lopen", nil, own("lopen", 5, 5)},
+		{"readlink", nil, own("readlink", 6, 6)},
+		{"readdir", nil, own("readdir", 4, 4)},
+		{"walk1", nil, own("walk1", 2, 2)},
+		{"lcreate", nil, own("lcreate", 2, 2)},
+		{"mkdir", nil, own("mkdir", 2, 2)},
+		{"symlink", nil, own("symlink", 2, 2)},
+		{"mknod", nil, own("mknod", 2, 2)},
+		{"link", nil, vhloopFrame{K: "link", Tag: 1, Fid: 2, Fid2: 1, Gate: vhloopFileBase + 2, Files: []int{2}}},
+		{"unlinkat", nil, own("unlinkat", 2, 2)},
+		{"renameat", nil, own("renameat", 2, 2)},
+		// Trename of a walked child: the backend call is RenameAt on the parent directory's File
+		{"rename", []vhloopStep{vhloopSend(vhloopFrame{K: "walk1", Tag: 8, Fid: 2, NewFid: 9, Gate: -1})},
+			vhloopFrame{K: "rename", Tag: 1, Fid: 9, Fid2: 3, Gate: vhloopFileBase + 2, Files: []int{2}}},
 	}
 	for _, k := range kinds {
-		add("flush-"+k.name, 2, vhloopSend(k.f), vhloopSend(vhloopFlush(2, 1)), vhloopSend(vhloopFlush(10, 777)), vhloopSend(vhloopFlush(3, 2)),
+		steps := append([]vhloopStep{}, k.pre...)
+		steps = append(steps, vhloopSend(k.f), vhloopSend(vhloopFlush(2, 1)), vhloopSend(vhloopFlush(10, 777)), vhloopSend(vhloopFlush(3, 2)),
 			vhloopSend(vhloopFrame{K: "badtype", Tag: 11}), vhloopSend(vhloopFlush(12, 777)), vhloopRel(k.f.Gate, 0), vhloopSend(vhloopFlush(4, 1)))
+		l = append(l, vhloopScn{Name: "flush-" + k.name, NConn: 1, NFid: 7, Kinds: "rrddDul", Steps: steps})
+	}
+	// the gate stays shut for a while: an Rflush that gives up waiting after some time arrives before the release
+	for _, k := range kinds[:2] {
+		l = append(l, vhloopScn{Name: "flush-" + k.name + "-held", NConn: 1, NFid: 7, Kinds: "rrddDul", Steps: []vhloopStep{
+			vhloopSend(k.f), vhloopSend(vhloopFlush(2, 1)), vhloopSend(vhloopFlush(3, 2)), {Op: "hold", Mode: 200}, vhloopRel(k.f.Gate, 0)}})
 	}
 	// the flush's tag is itself in flight: dropped; the flushed request is answered once
 	add("flush-dup-tag", 1, vhloopSend(vhloopRead(1, 1)), vhloopSend(vhloopFlush(1, 1)), vhloopSend(vhloopFlush(2, 1)), vhloopSend(vhloopFlush(2, 2)), vhloopRel(1, 0))
